@@ -489,7 +489,7 @@ func (P *Prog) predicateWrappers() []wrapperInfo {
 						cl = made.Fn.(*ssa.Function)
 						for k, prm := range fac.Params {
 							if k < len(x.Call.Args) {
-								env[prm] = cv(x.Call.Args[k])
+								env[prm] = x.Call.Args[k]
 							}
 						}
 					}
